@@ -112,6 +112,7 @@ def main():
     pid = sys.argv[1]
     args = sys.argv[2:]
     mx, seed, ops, extra = 40, 1, "ROR,LCR,NEG,AOR,DEL", []
+    retest = False
     i = 0
     while i < len(args):
         if args[i] == "--max":
@@ -123,6 +124,8 @@ def main():
         elif args[i] == "--extra":
             mm = re.match(r"^(\S+?):(\d+)-(\d+)$", args[i + 1])
             extra.append((mm.group(1), int(mm.group(2)), int(mm.group(3)))); i += 2
+        elif args[i] == "--retest":
+            retest = True; i += 1
         else:
             i += 1
     ops = set(ops.split(","))
@@ -143,6 +146,15 @@ def main():
         for l in open(outp):
             d = json.loads(l)
             done.add((d["file"], d["line"], d["col"], d["op"], d["new"]))
+    if retest:
+        # re-run the survivors of earlier runs only (after a check was strengthened); latest status wins
+        latest = {}
+        for l in open(outp):
+            d = json.loads(l)
+            latest[(d["file"], d["line"], d["col"], d["op"], d["new"])] = d
+        cands = [dict(op=d["op"], file=d["file"], line=d["line"], col=d["col"], old=d["old"], new=d["new"]) for d in latest.values() if d["status"] == "survived"]
+        done = set()
+        mx = len(cands)
     print("%s: %d ranges, %d candidate mutants, running up to %d" % (pid, len(rngs), len(cands), mx))
     env = dict(os.environ)
     env.update(VERIF_REPO=SCRATCH, VERIF_NO_EVIDENCE="1", VERIF_TIER="quick")
